@@ -724,6 +724,26 @@ class Executor:
                 if isinstance(a, Float):
                     return Float(z3.fpNeg(a.t), a.bits)
                 return Int(-a.t, a.bits, a.signed)
+            if rv[1] == "PtrMetadata":
+                # length of the slice behind a wide pointer
+                v = a
+                while isinstance(v, Ref):
+                    v = self.get_at(st, v.box, v.path)
+                if isinstance(v, Vec):
+                    return Int(v.len_term(), 64, False)
+                if isinstance(v, SliceView):
+                    if v.whole:
+                        base = v.base
+                        bv = self.get_at(st, base.box, base.path)
+                        while isinstance(bv, Ref):
+                            bv = self.get_at(st, bv.box, bv.path)
+                        return Int(bv.len_term(), 64, False)
+                    base = v.base
+                    bv = self.get_at(st, base.box, base.path)
+                    while isinstance(bv, Ref):
+                        bv = self.get_at(st, bv.box, bv.path)
+                    end = v.end if v.end is not None else len(bv.items)
+                    return Int(z3.BitVecVal(end - v.start, 64), 64, False)
             raise Unsupported("unop " + rv[1])
         if k == "ref":
             r = self.place_ref(st, fr, rv[2])
